@@ -24,6 +24,52 @@ limitations under the License.
 
 #include "logger_p.h"
 
+#ifdef LIBCELLML_VERIF
+#    include "verifhooks.h"
+
+#    include <cstdio>
+#    include <cstdlib>
+#    include <unistd.h>
+
+namespace libcellml {
+namespace verif {
+
+static void fileLoggerHook(const void *logger, const char *op, int level, size_t index,
+                           size_t issues, size_t errors, size_t warnings, size_t messages)
+{
+    static FILE *file = nullptr;
+    if (file == nullptr) {
+        std::string path = std::string(std::getenv("LIBCELLML_VERIF_LOGGER_TRACE")) + "." + std::to_string(getpid());
+        file = fopen(path.c_str(), "a");
+    }
+    if (file != nullptr) {
+        fprintf(file, "{\"e\":\"log\",\"id\":\"%p\",\"op\":\"%s\",\"lv\":%d,\"idx\":%zu,\"n\":%zu,\"ne\":%zu,\"nw\":%zu,\"nm\":%zu}\n",
+                logger, op, level, index, issues, errors, warnings, messages);
+        fflush(file);
+    }
+}
+
+static LoggerHook gLoggerHook = (std::getenv("LIBCELLML_VERIF_LOGGER_TRACE") != nullptr) ? fileLoggerHook : nullptr;
+
+void setLoggerHook(LoggerHook hook)
+{
+    gLoggerHook = hook;
+}
+
+LoggerHook loggerHook()
+{
+    return gLoggerHook;
+}
+
+} // namespace verif
+} // namespace libcellml
+
+#    define LIBCELLML_VERIF_LOG(logger, op, level, index) \
+        if (libcellml::verif::gLoggerHook != nullptr) { \
+            libcellml::verif::gLoggerHook(logger, op, level, index, (logger)->mIssues.size(), (logger)->mErrors.size(), (logger)->mWarnings.size(), (logger)->mMessages.size()); \
+        }
+#endif
+
 namespace libcellml {
 
 Logger::LoggerImpl *Logger::pFunc()
@@ -39,6 +85,9 @@ const Logger::LoggerImpl *Logger::pFunc() const
 Logger::Logger(LoggerImpl *derivedPimpl)
     : mPimpl(derivedPimpl)
 {
+#ifdef LIBCELLML_VERIF
+    LIBCELLML_VERIF_LOG(mPimpl, "new", -1, 0)
+#endif
 }
 
 Logger::~Logger() = default;
@@ -91,12 +140,18 @@ void Logger::LoggerImpl::removeAllIssues()
     mErrors.clear();
     mWarnings.clear();
     mMessages.clear();
+#ifdef LIBCELLML_VERIF
+    LIBCELLML_VERIF_LOG(this, "removeAll", -1, 0)
+#endif
 }
 
 void Logger::LoggerImpl::removeError(size_t index)
 {
     mIssues.erase(mIssues.begin() + ptrdiff_t(mErrors.at(index)));
     mErrors.erase(mErrors.begin() + ptrdiff_t(index));
+#ifdef LIBCELLML_VERIF
+    LIBCELLML_VERIF_LOG(this, "removeError", 0, index)
+#endif
 }
 
 void Logger::LoggerImpl::addIssue(const IssuePtr &issue)
@@ -117,6 +172,9 @@ void Logger::LoggerImpl::addIssue(const IssuePtr &issue)
         mMessages.push_back(index);
         break;
     }
+#ifdef LIBCELLML_VERIF
+    LIBCELLML_VERIF_LOG(this, "add", static_cast<int>(level), 0)
+#endif
 }
 
 size_t Logger::issueCount() const
